@@ -211,16 +211,24 @@ Definition cfg_of (l : list (pid * (kind * option pid * nat))) : config :=
      root_of := fun p => snd (fst (cfg_lookup l p));
      ntry_of := fun p => snd (cfg_lookup l p) |}.
 
-Definition trace_view (fx : bool) (l : list (pid * (kind * option pid * nat))) (sched : list (pid * choice))
-  : list (bool * list pid * list (pid * loc * nat)) :=
-  map (fun s => view s (map fst l)) (trace_gen fx (cfg_of l) init sched).
-
 (* the oracle of the property in boolean form, on one state and the listed pids: no two distinct,
    unrelated holders of which one is exclusive *)
 Definition mutex_okb (cfg : config) (s : state) (ps : list pid) : bool :=
   forallb (fun p => forallb (fun q =>
     Nat.eqb p q || relatedb cfg p q || negb (holdsb s p && holdsb s q) ||
     (negb (isEx cfg p) && negb (isEx cfg q))) ps) ps.
+
+(* what the driver prints for one schedule: every state along it (the start state first), seen on the
+   declared pids, with the verdict of the oracle; a schedule that names an undeclared pid is refused *)
+Definition declared (l : list (pid * (kind * option pid * nat))) (p : pid) : bool :=
+  existsb (fun e => Nat.eqb (fst e) p) l.
+
+Definition trace_view (fx : bool) (l : list (pid * (kind * option pid * nat))) (sched : list (pid * choice))
+  : res (list (bool * list pid * list (pid * loc * nat) * bool)) :=
+  if forallb (fun e => declared l (fst e)) sched
+  then Ok (map (fun s => (view s (map fst l), mutex_okb (cfg_of l) s (map fst l)))
+               (trace_gen fx (cfg_of l) init sched))
+  else Err NotFound.
 
 (* ---- which lock each command takes (the table itself is Generated/Locks.v) *)
 Definition lock_table := list (string * option kind).
